@@ -27,9 +27,9 @@ UNITS = {
                 "assumes": ["unit numbers: ASSUMED contract of std's {u8,u16,i8,i16,u32,usize}::from_str_radix: for a well-formed digit string (what the literal token's regular expression admits) the result is Ok(v) iff the mathematical value of the text fits the type, and v is that value; the value of a text is an uninterpreted function. The bounded Kani units b_pp_* run the real from_str_radix on every literal of bounded length (cross-check of this assumption)",
                             "unit numbers: the token text is ASCII with at least one digit after its prefix (the token's regular expression; the generated lexer is trusted)"]},
     "printer": {"tpl": "printer.rs", "props": ["C17", "C09"],
-                "fn_props": {**PRELUDE_FNS, "pr_.*": ["C17", "C09"]}},
+                "fn_props": {**PRELUDE_FNS, "pr_.*|get_flag_state|lemma_flag_bits": ["C17", "C09"]}},
     "interrupts": {"tpl": "interrupts.rs", "props": ["C18", "C09"],
-                   "fn_props": {**PRELUDE_FNS, "int_13|store_input_line": ["C18", "C09"]}},
+                   "fn_props": {**PRELUDE_FNS, "int_13|store_input_line|int_21|get_byte_reg|set_byte_reg|lemma_halves": ["C18", "C09"]}},
     "lemmas": {"tpl": "lemmas.rs", "props": ["C05", "C07", "C12"],
                "fn_props": {**PRELUDE_FNS, "lemma_rep.*|bridge_rep.*|bridge_string_plain|verif_fnptr_apply": ["C07"], "lemma_push.*|lemma_sp_casts|lemma_word|bridge_p.*|get_word_reg_val|set_word_reg_val": ["C05"], "lemma_contiguous|lemma_len": ["C12"]}},
     "transfer": {"tpl": "transfer.rs", "props": ["C08", "C14", "C04", "C12", "C18", "C09", "C10"],
